@@ -96,6 +96,13 @@ pub mod stdcoll {
                 None => !vstd::std_specs::hash::contains_borrowed_key(old(m)@, k) && final(m)@ == old(m)@,
             };
 
+    // std::cmp::min: documented as "returns the minimum of two values; returns the first argument if
+    // the comparison determines them to be equal", i.e. `if b < a { b } else { a }`, stated with
+    // vstd's model of `Ord::cmp` under the usual proviso that T's cmp obeys its spec.
+    pub assume_specification<T: Ord>[ std::cmp::min ](a: T, b: T) -> (r: T)
+        ensures vstd::laws_cmp::obeys_cmp_spec::<T>() ==>
+            r == (if vstd::std_specs::cmp::OrdSpec::cmp_spec(&b, &a) == core::cmp::Ordering::Less { b } else { a });
+
     // ---- by-reference iteration ------------------------------------------------------------
     pub assume_specification<'a, T, A: Allocator + Clone>
         [ <&'a BTreeSet<T, A> as IntoIterator>::into_iter ]
